@@ -82,6 +82,16 @@ def wrap(r, n, outer_from, direction, inner, shape):
         else:
             payload = "<forwarded xmlns='%s'><message xmlns='jabber:client' from='bob@example.org/phone' to='%s' type='chat'><body>fwd-%d</body>%s</message></forwarded>" % (NS_F, OWN, n, w_)
         return "<message%s to='%s' id='outer-%d' type='chat'>%s</message>" % (fa, wire.JID, n, payload), inner
+    elif shape in ("delay-on-wrapper", "delay-on-outer", "delay-on-both"):
+        # XEP-0297 lets <forwarded/> carry a <delay/> of its own (when the copy was made), and a server may stamp the outer stanza when it
+        # delivers it late: neither belongs to the inner message
+        dl = "<delay xmlns='urn:xmpp:delay' stamp='2021-02-03T04:05:%02dZ' from='example.org'/>" % (n % 60)
+        if shape != "delay-on-wrapper":
+            post = dl.replace("2021", "2022")
+        if shape != "delay-on-outer":
+            x = "<message%s to='%s' id='outer-%d' type='chat'>%s<%s xmlns='%s'><forwarded xmlns='%s'>%s%s</forwarded></%s>%s</message>" % (
+                fa, wire.JID, n, pre, direction, car, fwd, dl, core_inner, direction, post)
+            return x, core_inner
     elif shape == "two-wrappers":
         post = "<%s xmlns='%s'><forwarded xmlns='%s'>%s</forwarded></%s>" % (direction, NS_C, NS_F, inner.replace("inner-%d" % n, "innerB-%d" % n).replace("inner-body-%d" % n, "innerB-body-%d" % n), direction)
     x = "<message%s to='%s' id='outer-%d' type='chat'>%s<%s xmlns='%s'><forwarded xmlns='%s'>%s</forwarded></%s>%s</message>" % (
@@ -89,7 +99,7 @@ def wrap(r, n, outer_from, direction, inner, shape):
     return x, core_inner
 
 
-SHAPES = ["plain"] * 6 + ["extra-before", "extra-after", "wrong-carbons-ns", "wrong-forward-ns", "forwarded-without-message", "nested", "nested", "buried-wrapper", "buried-wrapper", "two-wrappers"]
+SHAPES = ["plain"] * 6 + ["extra-before", "extra-after", "wrong-carbons-ns", "wrong-forward-ns", "forwarded-without-message", "nested", "nested", "buried-wrapper", "buried-wrapper", "two-wrappers", "delay-on-wrapper", "delay-on-wrapper", "delay-on-outer", "delay-on-both"]
 
 
 def worker(args):
@@ -167,7 +177,7 @@ def worker(args):
             w = {"manager": gen, "sender_class": cls, "shape": shape, "stanza": x[:1500], "presented": [{k: p.get(k) for k in ("name", "id", "from", "to", "body", "carbon")} for p in unwrapped + deeper]}
             if deeper:
                 viol.append(("unwrapped-twice %s" % gen, "a carbon nested inside a carbon was unwrapped and presented as a conversation message", w))
-            should_unwrap = verdict == "accept" and shape in ("plain", "extra-before", "extra-after", "nested", "two-wrappers")
+            should_unwrap = verdict == "accept" and shape in ("plain", "extra-before", "extra-after", "nested", "two-wrappers", "delay-on-wrapper", "delay-on-outer", "delay-on-both")
             if verdict == "reject" or shape == "buried-wrapper" or (verdict == "accept" and shape in ("wrong-carbons-ns", "wrong-forward-ns", "forwarded-without-message")):
                 if unwrapped:
                     why = "sender " + cls if verdict == "reject" and shape != "buried-wrapper" else "shape " + shape
@@ -221,7 +231,7 @@ def main(tier, replay=None):
     cov = {"evaluations": stats["injected"], "distinct_nontrivial": stats["rejected_ok"] + stats["accepted_ok"],
            "rule": "carbon wrappers injected by a fake server into a real connected client with QXmppCarbonManagerV2 or QXmppCarbonManager: %d outer sender classes (own bare = accept; own full JIDs, look-alike domains, prefix/suffix, resource tricks, "
                    "contacts, server = reject; case variants, empty and absent from = not judged) x sent/received x random inner messages built from the fixture extension pool x 9 wrapper shapes (extra payloads, wrong namespaces, "
-                   "forwarded without message, a second wrapper of either direction nested in the inner message or buried in an extension of it, a wrapper buried in a MAM result / forwarded message / application extension of a stanza that is no carbon, two wrappers); every message object the application sees is recorded (messageReceived, V1 messageSent/messageReceived); unique ids/bodies tie presentations to wrappers" % len(SENDERS),
+                   "forwarded without message, a second wrapper of either direction nested in the inner message or buried in an extension of it, a wrapper buried in a MAM result / forwarded message / application extension of a stanza that is no carbon, two wrappers, a <delay/> on the <forwarded/> element and/or on the outer stanza); every message object the application sees is recorded (messageReceived, V1 messageSent/messageReceived); unique ids/bodies tie presentations to wrappers" % len(SENDERS),
            "observed": dict(stats), "samples": [{"outer_from": "alice@evil-example.org", "expected": "not unwrapped"}]}
     floors = {"rejected_ok": stats["rejected_ok"] > 100, "accepted_ok": stats["accepted_ok"] > 100}
     V.finish(cov, "exploration", ["case variants of the own JID and stanzas without from are not judged (the statement leaves them open)", "loopback TCP; messages presented later than the settle window would be missed"], floors)
